@@ -647,7 +647,7 @@ def gen_C06(r):
 GEN["C06"] = gen_C06
 
 
-CORRUPTIONS = [None, None, {"kind": "no_index"}, {"kind": "missing_member", "idx": 0}, {"kind": "missing_member", "idx": 1},
+CORRUPTIONS = [None, None, None, {"kind": "no_index"}, {"kind": "missing_member", "idx": 0}, {"kind": "missing_member", "idx": 1},
                {"kind": "truncate", "frac": 0.1}, {"kind": "truncate", "frac": 0.5}, {"kind": "truncate", "frac": 0.9},
                {"kind": "garbage"}, {"kind": "index_not_sqlite"}, {"kind": "index_empty"},
                {"kind": "escape_dotdot", "idx": 0}, {"kind": "escape_symlink", "idx": 1}]
@@ -723,7 +723,7 @@ def gen_C12(r):
            "cwd": r.choice(["", ""] + list(scn["pkgs"]))}
     if corrupt:
         rop["corrupt"] = corrupt
-    elif r.random() < 0.15:
+    elif r.random() < 0.35:
         rop["tar_killed"] = True
     if r.random() < 0.1:
         # started by a parent that ignores SIGCHLD (inherited across exec): the kernel reaps the tar child
